@@ -79,7 +79,9 @@ def run(chk: Check) -> None:
     # 3. segment-exact rule matching
     n_cmp = 0
     for f in (ab, prog.func('ports.PortNamespace.strip_namespace')):
-        for c in calls_in_func(f, 'startswith'):
+        comp_calls = [c for n in ast.walk(f.node) if isinstance(n, (ast.ListComp, ast.GeneratorExp, ast.SetComp)) for g in n.generators for i in g.ifs for c in ast.walk(i)
+                      if isinstance(c, ast.Call) and last_name(c) == 'startswith']
+        for c in list(calls_in_func(f, 'startswith')) + [c for c in comp_calls if c not in calls_in_func(f, 'startswith')]:
             n_cmp += 1
             recv, arg = norm(c.func.value), c.args[0]
             ok = ends_with_separator(f, arg)
@@ -94,10 +96,18 @@ def run(chk: Check) -> None:
                     chk.ob('SEG-exact-matching', f, True, f'"{norm(n)}": membership of the whole name', node=n, kind='membership')
     chk.floor('SEG-exact-matching', n_cmp, 3)
     sn = prog.func('ports.PortNamespace.strip_namespace')
-    ok = any(isinstance(n, ast.Call) and norm(n.func) == 'stripped.append' and isinstance(n.args[0], ast.Subscript) and 'len(prefix)' in norm(n.args[0]) for n in ast.walk(sn.node))
-    chk.ob('SEG-exact-matching', sn, ok, 'a matching rule is passed down with exactly the namespace prefix removed', kind='strip-prefix')
-    rn = [r for r in ast.walk(sn.node) if isinstance(r, ast.Return)]
-    chk.ob('SEG-exact-matching', sn, any(norm(r.value) == 'rules' for r in rn) and any(norm(r.value) == 'stripped' for r in rn), '"no rules" stays "no rules" (None is not turned into an empty list)', kind='none-preserved')
+    slices = [n for n in ast.walk(sn.node) if isinstance(n, ast.Subscript) and isinstance(n.slice, ast.Slice) and n.slice.lower is not None
+              and norm(n.slice.lower).startswith('len(') and n.slice.upper is None]
+    sw = [c for c in calls_in_func(sn, 'startswith')] + [c for n in ast.walk(sn.node) if isinstance(n, (ast.ListComp, ast.GeneratorExp)) for g in n.generators for i in g.ifs
+                                                         for c in ast.walk(i) if isinstance(c, ast.Call) and last_name(c) == 'startswith']
+    ok = len(slices) == 1 and bool(sw) and all(norm(slices[0].slice.lower) == f'len({norm(c.args[0])})' and norm(slices[0].value) == norm(c.func.value) for c in sw)
+    chk.ob('SEG-exact-matching', sn, ok, 'a matching rule is passed down with exactly the matched prefix removed', kind='strip-prefix')
+    ffn = chk.ctx.facts.analyse(sn)
+    rp = sn.params[2] if len(sn.params) > 2 else 'rules'
+    rets_n = [n for n in ffn.cfg.nodes if n.kind == 'return']
+    none_ok = any(('none', rp) in ffn.at(r) and norm(r.ast.value) in (rp, 'None') for r in rets_n) and all(
+        ('notnone', rp) in ffn.at(r) or ('none', rp) in ffn.at(r) for r in rets_n)
+    chk.ob('SEG-exact-matching', sn, none_ok, '"no rules" stays "no rules" (None is not turned into an empty list)', kind='none-preserved')
     # skip / descend decisions
     tests = {norm(t.ast.test): t for t in cfg.nodes if t.kind == 'test'}
     ok = any(k == 'exclude and port_name in exclude' for k in tests) and any(k == 'include and port_name not in include' for k in tests)
@@ -111,8 +121,10 @@ def run(chk: Check) -> None:
 
     # 4. options
     sets = [c for c in calls_in_func(ab) if norm(c.func) == 'setattr' and norm(c.args[0]) == 'self']
-    ok = len(sets) == 1 and isinstance(sets[0].args[2], ast.Call) and norm(sets[0].args[2].func) == 'namespace_options.pop' and \
-        [norm(a) for a in sets[0].args[2].args] == ['attr', f'getattr({src}, attr)']
+    ok = len(sets) == 1 and isinstance(sets[0].args[2], ast.Call) and norm(sets[0].args[2].func) == 'namespace_options.pop'
+    if ok:
+        av = norm(sets[0].args[1])
+        ok = [norm(a) for a in sets[0].args[2].args] == [av, f'getattr({src}, {av})']
     chk.ob('PROV-namespace-options', ab, ok, 'every mutable property takes the override from namespace_options if given, else the source namespace\'s value', node=sets[0] if sets else None, kind='pop-with-source-default')
     guard = [t for t in cfg.nodes if t.kind == 'test' and 'is_mutable_property' in norm(t.ast.test)]
     chk.ob('PROV-namespace-options', ab, len(guard) == 1, 'only mutable properties of PortNamespace are copied', kind='mutable-properties')
@@ -128,13 +140,13 @@ def run(chk: Check) -> None:
     ok = len(ab_call) == 1 and [norm(a) for a in ab_call[0].args] == ['source', 'exclude', 'include', 'namespace_options']
     chk.ob('PROV-namespace-options', ep, ok, 'expose_* hands source, exclude, include and namespace_options to absorb unchanged', node=ab_call[0] if ab_call else None, kind='passed-through')
     efs = chk.ctx.facts.analyse(ep)
-    cr = [n for n in ecfg.nodes if any(last_name(c) == 'create_port_namespace' and [norm(a) for a in c.args] == ['namespace'] and norm(c.func.value) == 'destination' for c in _calls(n))]
-    ok = len(cr) == 1 and ('T', 'namespace') in efs.at(cr[0])
-    direct = [n for n in ecfg.nodes if n.kind == 'stmt' and isinstance(n.ast, ast.Assign) and norm(n.ast.targets[0]) == 'port_namespace' and norm(n.ast.value) == 'destination']
-    ok = ok and len(direct) == 1 and ('F', 'namespace') in efs.at(direct[0])
+    from ..rules import conditional_values
+    tvar = norm(ab_call[0].func.value) if ab_call else 'port_namespace'
+    vals = conditional_values(efs, tvar)
+    created = [(fs, v) for fs, v in vals if isinstance(v, ast.Call) and last_name(v) == 'create_port_namespace' and norm(v.func.value) == 'destination' and [norm(a) for a in v.args] == ['namespace']]
+    direct = [(fs, v) for fs, v in vals if norm(v) == 'destination']
+    ok = len(vals) == len(created) + len(direct) and bool(created) and bool(direct) and all(('T', 'namespace') in fs for fs, _ in created) and all(('F', 'namespace') in fs for fs, _ in direct)
     chk.ob('PROV-namespace-options', ep, ok, 'with a namespace the ports go into destination.<namespace> (created if needed), without one into the destination itself', kind='target-namespace')
-    if ab_call:
-        chk.ob('PROV-namespace-options', ep, norm(ab_call[0].func.value) == 'port_namespace', 'absorb is called on that target', kind='absorb-into-target')
     mem = [n for n in ast.walk(ep.node) if isinstance(n, ast.Assign) and norm(n.targets[0]) == 'expose_memory[namespace][process_class]']
     chk.ob('PROV-namespace-options', ep, len(mem) == 1 and norm(mem[0].value) == 'absorbed_ports', 'what was absorbed is remembered per (namespace, process class)', kind='memory')
     for q, srcexpr, dst, memo in (('process_spec.ProcessSpec.expose_inputs', 'process_class.spec().inputs', 'self.inputs', 'self._exposed_inputs'),
